@@ -341,7 +341,7 @@ def _e1_shards(tier):
     out = []
     for p in profiles:
         s = dict(p, N=N if (not p or tier != "quick") else N - 1, D=D, F=F)
-        for pre in enumerate_prefixes(body_E1, "X", {}, s, 2 if tier == "quick" else 3):
+        for pre in enumerate_prefixes(body_E1, "X", {}, s, 3 if (not p or tier != "quick") else 1):
             out.append(dict(s, prefix=pre))
     return out
 
